@@ -105,6 +105,35 @@ def rule_fields(fx, rep):
             if lit != ["-"]:
                 good, why = False, f"without a target the writer prints {lit}, not '-'"
     good = good and some_paths >= 1
+    if len(paths) == 1 and not paths[0][0]:
+        # combinator form: game.en_passant_target.map_or_else(|| "-", Square::notation) and the like
+        r = deep_strip(paths[0][1])
+        comb = [c for c in find_calls(r, "Option<T>::map_or_else", "Option<T>::map_or", "Option<T>::map") if
+                any(isinstance(x, tuple) and len(x) == 3 and x[0] == "field" and x[2] == "en_passant_target" for x in walk(c[2][0]))]
+        if comb:
+            good, why = True, ""
+
+            def fn_bodies_of(e):
+                e = deep_strip(e)
+                if isinstance(e, tuple) and e and e[0] == "fn":
+                    return [e[1]], None
+                if isinstance(e, tuple) and e and e[0] == "agg" and str(e[1]).startswith("closure:"):
+                    return [], fx.bodies.get(str(e[1])[len("closure:"):])
+                if isinstance(e, tuple) and e and e[0] == "closure":
+                    return [], fx.bodies.get(e[1])
+                return [], None
+            decided = False
+            for a in comb[0][2][1:]:
+                names, cb = fn_bodies_of(a)
+                if any(nm.endswith("Square::notation") for nm in names):
+                    decided = True
+                elif cb is not None and any(norm(callee_name(t) or "").endswith("Square::notation") for bb, t in cb.calls()):
+                    decided = True
+            if not decided:
+                rep.notes.append("C06-FIELDS: en-passant field written through an Option combinator whose mapping function is not recognised; clause not decided")
+        elif any(isinstance(x, tuple) and len(x) == 3 and x[0] == "field" and x[2] == "en_passant_target" for x in walk(r)):
+            rep.notes.append("C06-FIELDS: en-passant field written in an unrecognised form; clause not decided")
+            good = True
     rep.obligation(good)
     if not good:
         bad("en-passant", why or "the en-passant field is not written from game.en_passant_target alone", ep)
@@ -258,9 +287,16 @@ def fen_classes(fx, width_ok):
         if parent is None:
             return False
         refs = [r for r in parent.fn_refs() if norm(r.get("res") or r.get("fn") or "").endswith("fen_parser::fen_line")]
-        exts = [1 for bb, t in b.calls() if norm(callee_name(t) or "").endswith("Extend<T>>::extend") or norm(callee_name(t) or "").endswith("Vec::extend") or "extend" in norm(callee_name(t) or "").split("::")[-1]]
+        exts = 0
+        for bb, t in b.calls():
+            if not ("extend" in norm(callee_name(t) or "").split("::")[-1]):
+                continue
+            # one append per call, or - when the appended rank is the variable of a loop over an array literal - one per array element
+            e = b.expr(t["args"][1], expand_named=True, at=bb) if len(t["args"]) > 1 else None
+            arrs = [x for x in walk(e) if isinstance(x, tuple) and x and x[0] == "agg" and x[1] == "array"] if e is not None and find_calls(e, "Iterator>::next") else []
+            exts += len(arrs[0][2]) if len(arrs) == 1 else 1
         rank_n = fx.const("square::Rank::N").get("int")
-        return width_ok and len(refs) == rank_n and len(exts) == rank_n
+        return width_ok and len(refs) == rank_n and exts == rank_n
 
     def c_assert64(site, fx):
         if not (site.family == "panic" and "assert_eq!" in " ".join(site.exp) and site.what == "assert_failed"):
@@ -524,6 +560,10 @@ MUTANTS = [
      "edits": [(P, "        value(Player::White, tag(\"w\")),\n        value(Player::Black, tag(\"b\")),", "        value(Player::Black, tag(\"w\")),\n        value(Player::White, tag(\"b\")),")]},
     {"name": "writer drops the en-passant square when no capture is possible (seed C06-1)", "expect": "C06-FIELDS/en-passant",
      "edits": [(W, "        Some(sq) => sq.notation(),\n        None => \"-\".to_string(),", "        Some(sq) if game.moves().iter().any(|m| m.is_en_passant()) => sq.notation(),\n        _ => \"-\".to_string(),")]},
+    {"name": "writer always prints '-' for the en-passant field", "expect": "C06-FIELDS/en-passant",
+     "edits": [("src/chess/fen/fen_writer.rs", "    match game.en_passant_target {\n        Some(sq) => sq.notation(),\n        None => \"-\".to_string(),\n    }", "    let _ = game;\n    \"-\".to_string()")]},
+    {"name": "benign: en-passant field through map_or_else", "benign": True,
+     "edits": [("src/chess/fen/fen_writer.rs", "    match game.en_passant_target {\n        Some(sq) => sq.notation(),\n        None => \"-\".to_string(),\n    }", "    game.en_passant_target\n        .map_or_else(|| \"-\".to_string(), Square::notation)")]},
     {"name": "writer prints the move number from plies / 2", "expect": "C06-FIELDS/fullmove",
      "edits": [("src/chess/game.rs", "        self.plies / 2 + 1", "        (self.plies + 1) / 2 + 1")]},
     {"name": "benign: width check written with equality first", "benign": True,
